@@ -40,7 +40,7 @@ def model_ints(model):
 
 
 def describe_value(I, model, v, heap, depth=0, ints=None):
-    if depth > 4:
+    if depth > 9:
         return "..."
     if v is None or isinstance(v, (int, str, bool)):
         return v
@@ -92,8 +92,8 @@ def describe_dict(I, model, d, heap, depth, ints):
     for k in store_keys(domv):
         cands.append(k)
     if kt == TInt:
-        pool = set(range(-2, 258)) | (ints or set())
-        cands += [z3.IntVal(i) for i in sorted(pool)]
+        first = sorted(i for i in (ints or set()) if -1000 < i < 100000)
+        cands += [z3.IntVal(i) for i in first] + [z3.IntVal(i) for i in range(0, 258) if i not in first]
     elif kt == TKey3:
         pool = sorted((ints or set()) | {0, 1, 255})[:12]
         cands += [mkKey3(z3.IntVal(a), z3.IntVal(b), z3.IntVal(c)) for a in pool for b in pool for c in pool]
@@ -108,14 +108,33 @@ def describe_dict(I, model, d, heap, depth, ints):
         if pyval(model, z3.Select(dom, kv)) is True:
             key = describe_value(I, model, Sym(kv, "key3" if kt == TKey3 else kt.kind), heap, depth + 1, ints)
             out[str(key)] = describe_value(I, model, I.wrap(z3.Select(mp, kv), vt, None) if vt.kind not in ("proto", "enum") else None, heap, depth + 1, ints)
-        if len(out) >= 8:
+        if len(out) >= 14:
             break
     return {"__dict__": out}
 
 
+def _collect_ints(x, acc):
+    if isinstance(x, bool):
+        return
+    if isinstance(x, int):
+        acc.add(x)
+    elif isinstance(x, dict):
+        for v in x.values():
+            _collect_ints(v, acc)
+    elif isinstance(x, (list, tuple)):
+        for v in x:
+            _collect_ints(v, acc)
+
+
 def describe_model(I, model):
+    out = _describe_model(I, model, model_ints(model))
+    more = set()
+    _collect_ints(out, more)  # numbers the model uses (message fields, ids): try them as dict keys in a second pass
+    return _describe_model(I, model, model_ints(model) | more)
+
+
+def _describe_model(I, model, ints):
     heap0 = I.c.wf_snaps[0] if I.c.wf_snaps else I.c.heap
-    ints = model_ints(model)
     out = {}
     for name, v in I.c.env.items():
         if callable(v) and not isinstance(v, (Sym, Obj)):
